@@ -1,7 +1,7 @@
 (* JsonModel.v -- executable model of the JSON reader and writer of Qentem
    (definitions only; proofs in JsonProofs*.v).
 
-   Modelled C++ (after the repairs D2, D11, D15, D16, D61, D62, D63, D81, D92 of this component and
+   Modelled C++ (after the repairs D2, D11, D15, D16, D61, D62, D63, D81, D92, D93 of this component and
    D28, D43, D44, D45 of the digit component -- see /verif/findings):
      Include/JSON.hpp        Parse, parseObject, parseArray, parseValue
      Include/JSONUtils.hpp   UnEscape<true>, Escape, JSONotation_T (via gen/Tables_json.v)
@@ -136,6 +136,15 @@ Fixpoint hexrd (site : N) (n : nat) (r : list N) (acc : N) : jres N :=
     end
   end.
 
+(* the same loop seen from its offset: how far HexStringToNumber(content, offset, offset + n) advances -- the number of
+   leading hexadecimal digits among the first [n] units.  D93: UnEscape fails unless all four units were consumed *)
+Definition is_hexd (d : N) : bool := match hexval d with Some _ => true | None => false end.
+Fixpoint hexcount (n : nat) (r : list N) : nat :=
+  match n with
+  | O => O
+  | S n' => match r with d :: t => if is_hexd d then S (hexcount n' t) else O | [] => O end
+  end.
+
 (* ------------------------------------------------------------------ *)
 (* JSONUtils::UnEscape<true>(content + offset, length - offset, stream).
    [r] the units from the local offset on, [k] the local offset, [pend] the raw
@@ -166,6 +175,8 @@ Fixpoint unesc (f : nat) (w : N) (r : list N) (k : nat) (pend st : list N) : jre
           else if (ch =? jc_cu) || (ch =? jc_u) then
             if (3 <? length r2)%nat then
               code <- hexrd 2142 4 r2 0 ;;
+              if negb (hexcount 4 r2 =? 4)%nat then JOk (O, st1)       (* D93: offset != digits_end *)
+              else
               r6 <- advn 2143 4 r2 ;;
               if negb (N.land code 64512 =? 55296) then           (* D11: (code & 0xFC00) != 0xD800 *)
                 unesc f' w r6 (6 + k) [] (st1 ++ to_utf w code)
@@ -180,6 +191,8 @@ Fixpoint unesc (f : nat) (w : N) (r : list N) (k : nat) (pend st : list N) : jre
                   r8 <- advn 2154 2 r6 ;;
                   lo <- hexrd 2156 4 r8 0 ;;
                   let code2 := m32 (m32 (code1 + N.land lo 1023) + 65536) in
+                  if negb (hexcount 4 r8 =? 4)%nat then JOk (O, st1)   (* D93: offset != low_end *)
+                  else
                   r12 <- advn 2161 4 r8 ;;
                   unesc f' w r12 (12 + k) [] (st1 ++ to_utf w code2)
                 else JOk (O, st1)
